@@ -1834,6 +1834,7 @@ class _World:
         self.case = case
         self.probe = probe          # _Probe or None
         self.tracked = [] if track else None        # [(name, owner object index or None, object, view function or None)]
+        self.base = {}                              # name -> the picture taken when the object was handed over / after the last operation
         self.ftdicts = []
         self.fts = [self._ft(i, s) for i, s in enumerate(case["fts"])]
         # state that sibling objects legitimately share: RecordField lists made by the caller, format templates
@@ -1861,16 +1862,22 @@ class _World:
     def track(self, name, obj, owner=None, view=None):
         if self.tracked is not None:
             self.tracked.append((name, owner, obj, view))
+            # (an argument of a call inside the history -- ColorsConfig(d), add_new_items(d), remove_columns(names) -- is
+            # pictured right before the call)
+            self.base[name] = self._picture(obj, view)
+
+    base = None
+
+    @staticmethod
+    def _picture(obj, view):
+        import json
+        try:
+            return json.dumps(_snap(view(obj) if view else obj))
+        except Exception as e:  # noqa
+            return "raises " + SX.exc_name(e)
 
     def snapshot(self):
-        import json
-        out = {}
-        for name, owner, obj, view in self.tracked or []:
-            try:
-                out[name] = json.dumps(_snap(view(obj) if view else obj))
-            except Exception as e:  # noqa
-                out[name] = "raises " + SX.exc_name(e)
-        return out
+        return {name: self._picture(obj, view) for name, owner, obj, view in self.tracked or []}
 
     def apply(self, op):
         """structural operations"""
@@ -2509,7 +2516,6 @@ def _run_history(case, w, klasses, log):
     made = {}
     canon = {}
     recs = []
-    before = w.snapshot()
     for op in case["ops"]:
         k = op[0]
         del log[:]
@@ -2594,11 +2600,11 @@ def _run_history(case, w, klasses, log):
             after = w.snapshot()
             mod = []
             for name, owner, _o, _v in w.tracked:
-                if name in before and before[name] != after[name] and not (owner is not None and owner == acted):
-                    mod.append([name, before[name][:400], after[name][:400]])
+                if w.base[name] != after[name] and not (owner is not None and owner == acted):
+                    mod.append([name, w.base[name][:400], after[name][:400]])
             if mod:
                 rec["mod"] = mod
-            before = after
+            w.base = after
         recs.append(rec)
         gc.collect()
     return recs
@@ -2978,11 +2984,12 @@ def oracle(case, obs):
                     out.append(("esc-in-no-color", f"{where}: a no_color result (created by op {mi}) yields an escape character: {t!r}"))
             if op[0] == "whole":
                 texts = rec["out"]
-                if len(texts) == 2 and texts[0] != texts[1]:
+                fl = op[2] == 4 and len(texts) == 2 and texts[0] == ref + "#" and texts[1] == ref
+                if len(texts) == 2 and texts[0] != texts[1] and not fl:
                     out.append(("whole-ne-lines", f"{where}: consuming the result by line and whole gives different texts: {texts[0]!r} vs {texts[1]!r}"))
                 for t in texts:
                     if t != ref:
-                        out.append((_classify(case, obs, snaps, mi, mop[2], t, ref),
+                        out.append(("fixed-len-returns-self" if fl else _classify(case, obs, snaps, mi, mop[2], t, ref),
                                     f"{where}: the result created by op {mi} prints {t!r}; a fresh copy under a fresh configuration with the same content prints {ref!r}"))
                         break
             else:
